@@ -147,3 +147,11 @@ Theorem C13_member_getters_refuted :
       <> live_channels_value w.
 Proof. exact member_getters_refuted. Qed.
 Print Assumptions C13_member_getters_refuted.
+
+(* ... and with one Copy per element (notes/proposed-fixes/member-getter-live-object.diff;
+   model functions user_channels_copied_g / channel_users_copied_g) they keep isolation *)
+Theorem C13_member_getters_copied_isolated : forall w K, Isolated w K ->
+  (forall u h' l, user_channels_copied_g w u = Ok (h', l) -> Isolated (mkWorld h' (w_st w)) (l ++ K)) /\
+  (forall c h' l, channel_users_copied_g w c = Ok (h', l) -> Isolated (mkWorld h' (w_st w)) (l ++ K)).
+Proof. exact member_getters_copied_isolated. Qed.
+Print Assumptions C13_member_getters_copied_isolated.
